@@ -211,10 +211,26 @@ def pmap(fn_name, arglist, procs=None, chunksize=16):
     procs = procs or min(16, os.cpu_count() or 4)
     jobs = [(fn_name, a, k) for a, k in arglist]
     if len(jobs) < 8 or procs == 1:
-        return [_run_one(j) for j in jobs]
+        return _confirm_hangs(jobs, [_run_one(j) for j in jobs])
     ctx = mp.get_context("fork")
     with ctx.Pool(procs) as pool:
-        return pool.map(_run_one, jobs, chunksize=chunksize)
+        results = pool.map(_run_one, jobs, chunksize=chunksize)
+    return _confirm_hangs(jobs, results)
+
+
+def _confirm_hangs(jobs, results):
+    """A watchdog hit on a loaded machine is not yet a hang: every 'hang' is re-run alone (nothing else running
+    in this harness) with a 12x watchdog before it is reported.  Keeps starved runs from raising false alarms."""
+    for i, (job, r) in enumerate(zip(jobs, results)):
+        if isinstance(r, dict) and r.get("outcome") == "hang" and job[0] == "assemble":
+            fn, a, k = job
+            k2 = dict(k)
+            k2["watchdog"] = 12 * float(k.get("watchdog") or WATCHDOG_S)
+            r2 = _run_one((fn, a, k2))
+            if isinstance(r2, dict):
+                r2["first_attempt_hit_watchdog"] = True
+            results[i] = r2
+    return results
 
 
 if __name__ == "__main__":
